@@ -195,7 +195,10 @@ def run_shard(spec, R):
         for v in itertools.product(*[range(n) for n in shape]):
             cen = np.asarray(cs.coordinate(np.array(v) + 0.5), float)
             cidx = tuple(int(np.floor(cen[c] - lo[c])) for c in range(dim))  # unit voxels
-            if not np.array_equal(cart[cidx], arr[v]):
+            try:
+                if not np.array_equal(cart[cidx], arr[v]):
+                    good = False
+            except IndexError:  # the Cartesian array does not even have the extent the coordinate system implies
                 good = False
         R.check(good, "layout_agrees_with_coordinate_system", {"dim": dim, "shape": list(shape)})
         R.sig(["layout", dim, list(shape), list(trailing)])
